@@ -13,6 +13,7 @@ CONSTANTS
   EmitMode = "none"
   Record = TRUE
   Eager = FALSE
+  BatchBug = FALSE
 VIEW View0
 INVARIANTS TypeOK PerSeriesOrder NoDup NoDropLeak Conservation ShardFifo Complete
 CHECK_DEADLOCK FALSE
